@@ -15,16 +15,28 @@ export PYSPARK_PYTHON=/venv/bin/python PYSPARK_DRIVER_PYTHON=/venv/bin/python
 cd "$T/repo" || exit 2
 GROUPS_="tests/core tests/strategies tests/polars tests/io tests/geopandas tests/modin"
 [ -n "$PYSPARK" ] && GROUPS_="$GROUPS_ tests/pyspark"
+if [ -n "$SEED_TEST_GROUPS" ]; then
+  # reduced confirmation: only the listed test directories (the comparison is restricted to them)
+  for g in $SEED_TEST_GROUPS; do
+    n=$(echo "$g" | tr '/ ' '__')
+    /venv/bin/python -m pytest -ra -q -p no:cacheprovider --timeout=900 --continue-on-collection-errors --junitxml="$T/out/$n.xml" $g >"$T/out/$n.log" 2>&1 &
+  done
+else
 for g in $GROUPS_ "tests/dask tests/fastapi tests/hypotheses tests/mypy tests/test_inspection_utils.py"; do
   n=$(echo "$g" | tr '/ ' '__')
   /venv/bin/python -m pytest -ra -q -p no:cacheprovider --timeout=900 --continue-on-collection-errors --junitxml="$T/out/$n.xml" $g >"$T/out/$n.log" 2>&1 &
 done
+fi
 wait
 /venv/bin/python - "$T/out" "$LABEL" "$PYSPARK" <<'PY'
-import glob, json, sys, xml.etree.ElementTree as ET
+import glob, json, os, sys, xml.etree.ElementTree as ET
 base = json.load(open("/root/.vp/BASELINE.json"))
 ran_pyspark = bool(sys.argv[3])
 stable = {t for t in base["stable_pass"] if ran_pyspark or not t.startswith("tests.pyspark")}
+only = os.environ.get("SEED_TEST_GROUPS", "").split()
+if only:
+    pref = tuple(g.replace("/", ".") + "." for g in only)
+    stable = {t for t in stable if t.startswith(pref)}
 passed = set()
 for f in glob.glob(sys.argv[1] + "/*.xml"):
     for tc in ET.parse(f).getroot().iter("testcase"):
@@ -34,7 +46,8 @@ for f in glob.glob(sys.argv[1] + "/*.xml"):
 # imports docs/source/conf.py, which needs repository files outside the scratch copy: fails there with a no-op patch too
 ARTEFACT = {"tests.core.test_docs_setting_column_widths::test_sphinx_doctest_setting_global_pandas_conditions"}
 missing = sorted(stable - passed - ARTEFACT)
-print(f"SEED-TESTS {sys.argv[2]} missing={len(missing)} stable_checked={len(stable)} pyspark={'yes' if ran_pyspark else 'no'}")
+print(f"SEED-TESTS {sys.argv[2]} missing={len(missing)} stable_checked={len(stable)} pyspark={'yes' if ran_pyspark else 'no'}"
+      + (f" groups={','.join(only)}" if only else ""))
 for m in missing[:8]:
     print("  MISSING", m)
 PY
